@@ -185,6 +185,12 @@ class C04(core.Check):
                     verdict = ('base-balance', w.lines[-1], float(base), float(ref.base))
                 elif abs(posq - base) > tol * max(1, abs(base)):
                     verdict = ('position-not-base', w.lines[-1], float(posq), float(base))
+                elif w.s.position('BTC-USDT').qty != w.e.assets['BTC']:
+                    # the two books are kept by the same float operations on the same fills, so they are the SAME float:
+                    # a last-digit difference is what makes "sell exactly position.qty" (liquidate) either rejected
+                    # as exceeding the base held, or leave dust behind
+                    verdict = ('position-not-base/last-digit', w.lines[-1], repr(w.s.position('BTC-USDT').qty),
+                               repr(w.e.assets['BTC']))
                 elif quote < -tol or base < -tol:
                     verdict = ('negative-balance', w.lines[-1], [float(quote), float(base)], '>= 0')
                 elif posq < -tol:
